@@ -3772,10 +3772,19 @@ class BoutMesh(Mesh):
                 ixseps2 = self.nx
             elif len(self.x_startinds) == 4:
                 # Two separatrices
-                if self.equilibrium.double_null_type == "lower":
+                # ixseps1 belongs to the X-point that is passed first and last going
+                # round in y (at jyseps1_1 and jyseps2_2), ixseps2 to the other one. The
+                # first X-point is the lower one, unless start_at_upper_outer is set.
+                if getattr(
+                    self.equilibrium.user_options, "start_at_upper_outer", False
+                ):
+                    first_x_point, second_x_point = "upper", "lower"
+                else:
+                    first_x_point, second_x_point = "lower", "upper"
+                if self.equilibrium.double_null_type == first_x_point:
                     ixseps1 = self.x_startinds[1]
                     ixseps2 = self.x_startinds[2]
-                elif self.equilibrium.double_null_type == "upper":
+                elif self.equilibrium.double_null_type == second_x_point:
                     ixseps1 = self.x_startinds[2]
                     ixseps2 = self.x_startinds[1]
                 else:
